@@ -283,7 +283,9 @@ register("C02",
           # literal braces, or only in the package that wrote them): each gets the value of its own source
           lambda rep, tier: __import__("vlib.c13tier", fromlist=["x"]).run_pairs(rep, tier),
           # the designated source changes in a package two imports away between two runs of gen
-          lambda rep, tier: __import__("vlib.c02tier", fromlist=["x"]).run_rewire(rep, tier)])
+          lambda rep, tier: __import__("vlib.c02tier", fromlist=["x"]).run_rewire(rep, tier),
+          # one unnamed type written in several ways by its provider and its consumers: one call, one shared value
+          lambda rep, tier: __import__("vlib.c02tier", fromlist=["x"]).run_spellings(rep, tier)])
 register("C11",
          "unit tier: random programs containing interface bindings (non-trivial); e2e tier: value/pointer receivers, "
          "bindings to providers / struct providers / values / arguments / fields, consumers of I and of C; "
